@@ -1,3 +1,5 @@
+//go:build go1.23
+
 package announcer
 
 // C12, readiness announcements: the real Announce loop runs against a fake
